@@ -40,6 +40,8 @@
 #include <xercesc/util/XMLURL.hpp>
 #include <xercesc/util/TransService.hpp>
 #include <xercesc/util/RefArrayVectorOf.hpp>
+#include <xercesc/util/XMLMsgLoader.hpp>
+#include <xercesc/util/PanicHandler.hpp>
 #include <map>
 #include <unordered_map>
 #include <stdexcept>
@@ -791,18 +793,31 @@ static std::string mgrName() {
     return "own";
 }
 static void printState(const std::string& id) {
-    outLine("st " + id + " live=" + std::string(XMLPlatformUtils::fgTransService ? "1" : "0") + " mgr=" + mgrName());
+    outLine("st " + id + " live=" + std::string(XMLPlatformUtils::fgTransService ? "1" : "0") + " mgr=" + mgrName() +
+            " loc=" + (XMLMsgLoader::getLocale() ? "1" : "0") + " nls=" + (XMLMsgLoader::getNLSHome() ? "1" : "0"));
 }
+// an application panic handler (never expected to be called)
+class HarnessPanic : public PanicHandler {
+public:
+    void panic(const PanicHandler::PanicReasons reason) { outLine("panic " + std::to_string((int)reason)); flushOut(); abort(); }
+};
+static HarnessPanic gPanic;
 static void doInit(const std::string& id, const KV& kv) {
     int user = geti(kv, "user", 1);
     MemoryManager* m = user ? mgr(user) : 0;
     if (user == 1) gGlobal = mgr(1);
     std::string dom = get(kv, "dom", "");
+    // every argument of Initialize varies: loc=<string>|0 (default en_US), nls=<string>|0 (default 0), ph=1 (application panic handler)
+    std::string loc = get(kv, "loc", XMLUni::fgXercescDefaultLocale);
+    std::string nls = get(kv, "nls", "0");
+    const char* locp = loc == "0" ? 0 : loc.c_str();
+    const char* nlsp = nls == "0" ? 0 : nls.c_str();
+    PanicHandler* ph = geti(kv, "ph", 0) ? &gPanic : 0;
     if (!dom.empty()) {
         size_t a = 0, b = 0, c = 0;
         sscanf(dom.c_str(), "%zu,%zu,%zu", &a, &b, &c);
-        XMLPlatformUtils::Initialize(a, b, c, XMLUni::fgXercescDefaultLocale, 0, 0, m);
-    } else XMLPlatformUtils::Initialize(XMLUni::fgXercescDefaultLocale, 0, 0, m);
+        XMLPlatformUtils::Initialize(a, b, c, locp, nlsp, ph, m);
+    } else XMLPlatformUtils::Initialize(locp, nlsp, ph, m);
     gDepth++;
     if (XMLPlatformUtils::fgMemoryManager && mgrName() != "own") gGlobal = (LedgerMM*)XMLPlatformUtils::fgMemoryManager;
     printState(id);
